@@ -1014,13 +1014,24 @@ theorem loaderAdd_cold (hlt : ∀ a, e.hash a < e.B) {s : St Id} {ch : Nat → L
       setM_ok _ hku, pure_ok, idx_ok hv', hloop, hw, hs]
 
 /-- userecRawAddToUHash, on-the-fly mode, for a record whose id equals the live id as a C string:
-nothing is written to Userid; the slot is left where it is or linked behind its chain. -/
+nothing is written to Userid; the slot is left where it is or linked behind its chain (so a slot that a bare
+RemoveFromUHash had detached is linked again), unless the record is skipped as one invalid id too many. -/
 theorem loaderAdd_onfly {fold : Id → Id} (L : Laws e fold) {s : St Id} {ch : Nat → List Nat} (hwf : WF e s ch) {k : Nat}
     (hk : k < e.MAX) (id cur : Id) (hcur : s.userid[k]? = some cur) (hagree : e.seq id cur = true) (cnt : Nat) :
-    ∃ s' cnt' ch', loaderAdd e true s k id cnt = .ok (s', cnt') ∧ WF e s' ch' ∧
-      (∀ h x, x ∈ ch h → x ∈ ch' h) ∧ s'.userid = s.userid ∧ s'.number = s.number ∧ s'.loaded = s.loaded := by
+    ∃ s' ch', loaderAdd e true s k id cnt = .ok (s', if e.valid id = true then cnt else cnt + 1) ∧ WF e s' ch' ∧
+      (∀ h x, x ∈ ch h → x ∈ ch' h) ∧ s'.userid = s.userid ∧ s'.number = s.number ∧ s'.loaded = s.loaded ∧
+      (∀ h x, x ∈ ch' h → x ∈ ch h ∨ x = k) ∧
+      (¬ (e.valid id = false ∧ cnt + 1 > e.PRE) → k ∈ ch' (e.hash id)) := by
   by_cases hskip : (!e.valid id) = true ∧ (if e.valid id = true then cnt else cnt + 1) > e.PRE
-  · exact ⟨s, (if e.valid id = true then cnt else cnt + 1), ch, by simp only [loaderAdd, hskip, and_self, if_true, pure_ok], hwf, fun _ _ h => h, rfl, rfl, rfl⟩
+  · refine ⟨s, ch, by simp only [loaderAdd, hskip, and_self, if_true, pure_ok], hwf, fun _ _ h => h, rfl, rfl, rfl,
+      fun _ _ h => Or.inl h, ?_⟩
+    intro hn
+    exfalso
+    apply hn
+    have hv : e.valid id = false := by simpa using hskip.1
+    refine ⟨hv, ?_⟩
+    have := hskip.2
+    simpa [hv] using this
   · have hhash : e.hash cur = e.hash id := (L.hash_eq (L.seq_fold id cur hagree)).symm
     have hh := L.hash_lt id
     obtain ⟨v, hv, hc, hnd, hids⟩ := hwf.2 _ hh
@@ -1028,7 +1039,7 @@ theorem loaderAdd_onfly {fold : Id → Id} (L : Laws e fold) {s : St Id} {ch : N
     have hloop := loaderLoop_spec e true k e.MAX (.head (e.hash id)) hc (fun x hx => wf_lt hwf hh hx) hlen
     simp only [true_and] at hloop
     by_cases hm : k ∈ ch (e.hash id)
-    · refine ⟨s, (if e.valid id = true then cnt else cnt + 1), ch, ?_, hwf, fun _ _ h => h, rfl, rfl, rfl⟩
+    · refine ⟨s, ch, ?_, hwf, fun _ _ h => h, rfl, rfl, rfl, fun _ _ h => Or.inl h, fun _ => hm⟩
       simp only [hm, if_true] at hloop
       simp only [loaderAdd, hskip, if_false, idx_ok hcur, bind_ok, Bool.not_true, hagree, Bool.or_self,
         Bool.false_eq_true, pure_ok, idx_ok hv, hloop]
@@ -1041,7 +1052,7 @@ theorem loaderAdd_onfly {fold : Id → Id} (L : Laws e fold) {s : St Id} {ch : N
         exact hm (h2 ▸ hx)
       obtain ⟨s1, hw, hs, hwf2, hu⟩ := wf_link hwf hk hfree hh hcur hhash
       have hf := writeCell_frame hw
-      refine ⟨{ s1 with next := s1.next.set k (-1) }, (if e.valid id = true then cnt else cnt + 1), _, ?_, hwf2, ?_, hu, hf.2.1, hf.2.2⟩
+      refine ⟨{ s1 with next := s1.next.set k (-1) }, _, ?_, hwf2, ?_, hu, hf.2.1, hf.2.2, ?_, ?_⟩
       · simp only [hm, if_false] at hloop
         simp only [loaderAdd, hskip, if_false, idx_ok hcur, bind_ok, Bool.not_true, hagree, Bool.or_self,
           Bool.false_eq_true, pure_ok, idx_ok hv, hloop, hw, hs]
@@ -1050,6 +1061,16 @@ theorem loaderAdd_onfly {fold : Id → Id} (L : Laws e fold) {s : St Id} {ch : N
         split
         · rename_i heq; subst heq; exact List.mem_append_left _ hx
         · exact hx
+      · intro h x hx
+        simp only [upd] at hx
+        split at hx
+        · rename_i heq; subst heq
+          rcases List.mem_append.1 hx with hx | hx
+          · exact Or.inl hx
+          · simp at hx; exact Or.inr hx
+        · exact Or.inl hx
+      · intro _
+        simp [upd]
 
 /-- fillUHash's record loop, cold mode -/
 theorem fillLoop_cold (hlt : ∀ a, e.hash a < e.B) : ∀ (recs : List Id) (i cnt : Nat) (s : St Id) (ch : Nat → List Nat),
@@ -1159,16 +1180,20 @@ theorem fillLoop_cold (hlt : ∀ a, e.hash a < e.B) : ∀ (recs : List Id) (i cn
           exact this
 
 /-- fillUHash's record loop, on-the-fly mode, over records that agree with the live ids -/
-theorem fillLoop_onfly {fold : Id → Id} (L : Laws e fold) : ∀ (recs : List Id) (i cnt : Nat) (s : St Id) (ch : Nat → List Nat),
-    WF e s ch → Cover e [] s ch →
+theorem fillLoop_onfly {fold : Id → Id} (L : Laws e fold) (D : List Nat) : ∀ (recs : List Id) (i cnt : Nat) (s : St Id) (ch : Nat → List Nat),
+    WF e s ch → Cover e D s ch →
     (∀ j r, recs[j]? = some r → ∃ cur, s.userid[i + j]? = some cur ∧ e.seq r cur = true) →
-    ∃ s' ch', fillLoop e true recs i cnt s = .ok s' ∧ WF e s' ch' ∧ Cover e [] s' ch' ∧
-      s'.userid = s.userid ∧ s'.number = s.number ∧ s'.loaded = s.loaded := by
+    ∃ s' ch', fillLoop e true recs i cnt s = .ok s' ∧ WF e s' ch' ∧ Cover e D s' ch' ∧
+      s'.userid = s.userid ∧ s'.number = s.number ∧ s'.loaded = s.loaded ∧
+      (∀ h x, x ∈ ch h → x ∈ ch' h) ∧
+      (∀ h x, x ∈ ch' h → x ∈ ch h ∨ (i ≤ x ∧ x < i + recs.length)) ∧
+      (cnt + (recs.filter (fun r => !e.valid r)).length ≤ e.PRE →
+        ∀ j r, recs[j]? = some r → i + j ∈ ch' (e.hash r)) := by
   intro recs
   induction recs with
   | nil =>
     intro i cnt s ch hwf hcov _
-    exact ⟨s, ch, rfl, hwf, hcov, rfl, rfl, rfl⟩
+    exact ⟨s, ch, rfl, hwf, hcov, rfl, rfl, rfl, fun _ _ h => h, fun _ _ h => Or.inl h, fun _ j r h => by simp at h⟩
   | cons r rs ih =>
     intro i cnt s ch hwf hcov hag
     obtain ⟨cur, hcur, hseq⟩ := hag 0 r (by simp)
@@ -1177,18 +1202,41 @@ theorem fillLoop_onfly {fold : Id → Id} (L : Laws e fold) : ∀ (recs : List I
       have := (List.getElem?_eq_some_iff.1 hcur).1
       rw [hwf.1.hu] at this
       exact this
-    obtain ⟨s1, cnt', ch1, hrun, hwf1, hgrow, hu1, hn1, hl1⟩ := loaderAdd_onfly L hwf hi r cur hcur hseq cnt
-    have hcov1 : Cover e [] s1 ch1 := by
+    obtain ⟨s1, ch1, hrun, hwf1, hgrow, hu1, hn1, hl1, hbound1, hlink1⟩ := loaderAdd_onfly L hwf hi r cur hcur hseq cnt
+    have hcov1 : Cover e D s1 ch1 := by
       intro k' id' hid' hne hD
       rw [hu1] at hid'
       exact hgrow _ _ (hcov k' id' hid' hne hD)
-    obtain ⟨s', ch', hr', hwf', hcov', hu', hn', hl'⟩ := ih (i + 1) cnt' s1 ch1 hwf1 hcov1 (by
-      intro j r' hj
-      have := hag (j + 1) r' (by simpa using hj)
-      rw [hu1, show i + 1 + j = i + (j + 1) by omega]
-      exact this)
-    exact ⟨s', ch', by simp only [fillLoop, hrun, bind_ok, hr'], hwf', hcov', by rw [hu', hu1], by rw [hn', hn1],
-      by rw [hl', hl1]⟩
+    obtain ⟨s', ch', hr', hwf', hcov', hu', hn', hl', hmono, hbound, hlink⟩ :=
+      ih (i + 1) (if e.valid r = true then cnt else cnt + 1) s1 ch1 hwf1 hcov1 (by
+        intro j r' hj
+        have := hag (j + 1) r' (by simpa using hj)
+        rw [hu1, show i + 1 + j = i + (j + 1) by omega]
+        exact this)
+    refine ⟨s', ch', by simp only [fillLoop, hrun, bind_ok, hr'], hwf', hcov', by rw [hu', hu1], by rw [hn', hn1],
+      by rw [hl', hl1], fun h x hx => hmono h x (hgrow h x hx), ?_, ?_⟩
+    · intro h x hx
+      rcases hbound h x hx with hx | hx
+      · rcases hbound1 h x hx with hx | hx
+        · exact Or.inl hx
+        · right; simp; omega
+      · right; simp; omega
+    · intro hP j r' hj
+      have hP' : (if e.valid r = true then cnt else cnt + 1) + (rs.filter (fun r => !e.valid r)).length ≤ e.PRE := by
+        simp only [List.filter_cons] at hP
+        cases hv : e.valid r <;> simp [hv] at hP ⊢ <;> omega
+      cases j with
+      | zero =>
+        simp at hj; subst hj
+        apply hmono
+        apply hlink1
+        rintro ⟨hv, hgt⟩
+        simp only [List.filter_cons, hv, Bool.not_false, if_true, List.length_cons] at hP
+        omega
+      | succ j =>
+        have := hlink hP' j r' (by simpa using hj)
+        rw [show i + 1 + j = i + (j + 1) by omega] at this
+        exact this
 
 /-- InitFillUHash(true) under well-formed chains repairs nothing -/
 theorem checkAllFrom_id {s : St Id} {ch : Nat → List Nat} (hwf : WF e s ch) : ∀ (hs : List Int) (h0 : Nat),
